@@ -788,7 +788,7 @@ func (a *Act) frameCheck(st *State, env *SpecEnv, pos token.Pos, ri *ssa.Return)
 		return
 	}
 	for _, k := range sortedKeys(a.written) {
-		if strings.HasPrefix(k, "IT:") || k == "G:chancap" || k == "G:held" || k == "G:lockuses" {
+		if strings.HasPrefix(k, "IT:") || k == "G:chancap" || k == "G:held" || k == "G:lockuses" || k == "G:nsent" {
 			continue
 		}
 		if a.modelFieldKey(k) {
